@@ -207,7 +207,7 @@ def finish_search(ctx, proof_ok):
     """A broken proof obligation or correspondence is a violation even when the search (which ran the oracle on
     every case above) found no concrete failing input."""
     concrete = [v for v in ctx.violations if v[3]]
-    if (not proof_ok or ctx.corr_broken) and not concrete and not ctx.known_hits:
+    if (not proof_ok or ctx.corr_broken) and not concrete:
         what = "; ".join(ctx.proof_broken) if ctx.proof_broken else "correspondence broken"
         ctx.violation("unproved", what,
                       {"kind": "no-failing-input-found", "proof_broken": ctx.proof_broken,
